@@ -3,7 +3,7 @@ from harness import common, layerb as B, schemes as S
 
 from univers.version_constraint import VersionConstraint
 
-MODULES = ["Univers.Props.C10"]
+MODULES = ["Univers.Props.C10", "Univers.Props.Schemes"]
 LEVEL = "proof"
 RULE = ("per scheme: seeded well-formed ranges (patterns accepted by the model's validation) x seeded lists of known versions "
         "(any order, with duplicates, with or without the range's own bound versions); the real range.normalize(known) and "
